@@ -416,8 +416,6 @@ class SimSocket:
     def writable(self) -> bool:
         if self.closed:
             return False
-        if self.connecting:
-            return self.connect_done
         return self.connect_done and not self.tx_blocked
 
     # data ---------------------------------------------------------------------------
